@@ -8,7 +8,9 @@ RULE = ('storage histories with dirty-byte limits {0,1,100,4096,default}; the I/
         'the L3 model predicts (Io/Trace.v step_evs; default limit only) and the whole recorded trace is judged by the '
         'EXTRACTED Coq predicates (header synced before first record; index written-flag only when its blob is fully '
         'synced; appends at EOF); dirty bytes after fsyncdata / close_active / every write are checked against the '
-        'limit; distinct by (cfg line, multiset of (op, outcome class))')
+        'limit; bound stream: a threshold sync that fails once / a write landing while a delayed sync is in flight, then the '
+        'un-synced bytes measured from the tap alone (physical length minus what the last successful sync covered at its entry) '
+        'must be within the limit once the worker is idle; distinct by (cfg line, multiset of (op, outcome class))')
 ASSUMPTIONS = ['whether fsync reaches the medium is outside the model', 'threshold-triggered background syncs are judged by '
                'the predicates, not predicted event-exactly (the model has no dirty counter)']
 
@@ -35,9 +37,55 @@ def gen_script(rng):
     return '\n'.join(L) + '\n'
 
 
+def gen_bound_script(rng):
+    """The bound on un-synced bytes measured from the tap alone (`truedirty`: physical length of the active blob
+    minus what the last successful sync covered when it was entered), in the two situations a sequential history
+    never reaches: a threshold sync that FAILS once, and a write that lands WHILE a (delayed) sync is in flight."""
+    lim = rng.choice([1000, 4096, 10000])
+    L = ['cfg K=4 dup=1 group=2 bloom=none init=eager runtime=%s dirty=%d nomodel=1' % (rng.choice(['mt', 'mt', 'ct']), lim), 'trace on', 'open']
+    seed = 0
+    def w(ln):
+        nonlocal seed
+        seed += 1
+        L.append('W %s 5 - %d %d' % ((seed).to_bytes(4, 'big').hex(), ln, seed))
+    for _ in range(rng.randrange(0, 3)):
+        w(rng.choice([5, 100, 300]))
+    mode = rng.choice(['failsync', 'inflight', 'both'])
+    if mode in ('failsync', 'both'):
+        L.append('fail sync .blob 0 %s' % rng.choice(['EIO', 'ENOSPC']))
+        w(lim * 2)
+        L.append('quiesce')
+        L.append('clearfail')
+        for _ in range(rng.randrange(1, 4)):
+            w(rng.choice([lim // 2, lim, 5]))
+            L.append('quiesce')
+        w(lim + 1)
+        L.append('quiesce')
+        L.append('#BOUND')
+        L.append('truedirty')
+    if mode in ('inflight', 'both'):
+        L.append('autoquiesce 0')
+        L.append('fail sync .blob 0 delay:%d' % rng.choice([150, 300]))
+        w(lim * 2)
+        L.append('sleep 60')       # the sync is now inside its delay: what it covers was fixed before the next write starts
+        w(lim * 3)
+        L.append('sleep 600')
+        L.append('clearfail')
+        L.append('autoquiesce 1')
+        L.append('quiesce')
+        for _ in range(rng.randrange(1, 4)):
+            w(rng.choice([5, 100]))
+            L.append('quiesce')
+        L.append('#BOUND')
+        L.append('truedirty')
+    L.append('fsync')
+    L.append('close')
+    return '\n'.join(L) + '\n'
+
+
 def gen(tier, rng):
     n = 200 if tier == 'quick' else 4000
-    return [('sync%05d' % i, gen_script(rng)) for i in range(n)]
+    return [('sync%05d' % i, gen_script(rng)) for i in range(n)] + [('bound%05d' % i, gen_bound_script(rng)) for i in range(n // 5)]
 
 
 def norm_trace(tokens, mask_index_len=True):
@@ -85,6 +133,10 @@ def oracle(lines, io, spec=None):
             elif d > limit:
                 tag = '[F2] ' if any(x == 'W Err Index' or x == 'D Err Index' for x in io[:i]) else '[F13] '
                 fails.append((tag + 'line %d after `%s`: %d un-synced bytes exceed the limit %d with no sync pending') % (i, last_op, d, limit))
+        elif l == 'truedirty' and o.startswith('truedirty ') and o != 'truedirty none':
+            d = int(o.split()[1])
+            if d > limit:
+                fails.append('line %d: %d acknowledged bytes of the active blob are covered by no successful sync (measured from the I/O tap), limit %d, worker idle' % (i, d, limit))
         elif t == 'close_active' and o == 'close_active ok':
             pass
         if t not in ('trace', 'dirty', 'tracecheck', 'snapcheck'):
